@@ -87,9 +87,20 @@ def compare(cases):
                 c.diff = {'index': i, 'line': c.lines[i], 'impl': c.impl[i][:2000], 'model': c.model[i][:2000]}
                 break
 
+model_error = None
+
 def run(cases, timeout=600):
+    """run both sides; if the model cannot be built or run (e.g. a regenerated Gen/ file no longer fits), the
+    implementation side and the direct oracles still run and `model_error` says why the model side is missing"""
+    global model_error
+    model_error = None
     run_impl(cases, timeout)
-    run_model(cases)
+    try:
+        run_model(cases)
+    except Exception as e:
+        model_error = str(e)[:1500]
+        for c in cases:
+            c.model = []
     compare(cases)
     return cases
 
